@@ -6,8 +6,10 @@ Nothing here decides what mage should do with a package: builders only place nam
 package rendered is a valid Go package (identifiers that are exactly equal are never declared
 twice in one scope; Go accepts names that differ in case only).
 
-spec = {name, kind, collide, locals: [{recv,name,id}], imports: [{alias, tag, pkg, tgts: [{recv,name,id}]}],
-        aliases: [{key, ref}], words: [..]}"""
+spec = {name, kind, collide, locals: [{recv,name,id}], imports: [{alias, tag, pkg, file, tgts: [{recv,name,id}]}],
+        aliases: [{key, ref}], words: [..]}
+imports are import SPECS in source order (file 0 = magefile.go, file 1 = magefile2.go); several specs may
+name the same package (same pkg, same tgts): one package under several aliases, as root + alias, twice."""
 
 WORDS = ["Build", "Test", "Deploy", "Clean", "Say", "Run", "Gen", "Lint", "Install", "Docs", "Fmt", "Vet",
          "Pack", "Ship", "Html", "Check", "Bench", "Push", "Pull", "Tidy", "Wipe", "Scan", "Lock", "Sign"]
@@ -105,11 +107,18 @@ class Proj:
     def local(self, recv, name):
         return self._add(self.spec["locals"], recv, name)
 
-    def imp(self, alias, tag=None):
-        """alias: as mage extracts it (lower case, "" = bare tag); tag: as written in the comment"""
-        i = {"alias": alias, "tag": alias if tag is None else tag, "pkg": self.pkgname(), "tgts": []}
+    def imp(self, alias, tag=None, again=None, file=None):
+        """alias: as mage extracts it (lower case, "" = bare tag); tag: as written in the comment;
+        again: an earlier import spec whose package is imported once more; file: 0 or 1"""
+        if file is None:
+            file = 1 if self.rng.random() < 0.15 else 0
+        i = {"alias": alias, "tag": alias if tag is None else tag, "pkg": again["pkg"] if again else self.pkgname(),
+             "file": file, "tgts": again["tgts"] if again else []}
         self.spec["imports"].append(i)
         return i
+
+    def finish(self):
+        self.spec["imports"].sort(key=lambda i: i["file"])      # list order = source order (stable)
 
     def itgt(self, i, recv, name):
         return self._add(i["tgts"], recv, name)
@@ -121,7 +130,8 @@ class Proj:
         return True
 
     def some_def(self):
-        ids = [t["id"] for t in self.spec["locals"]] + [t["id"] for i in self.spec["imports"] for t in i["tgts"]]
+        ids = sorted(set([t["id"] for t in self.spec["locals"]] + [t["id"] for i in self.spec["imports"] for t in i["tgts"]]),
+                     key=lambda x: int(x[1:]))
         return self.rng.choice(ids) if ids else None
 
     def ialias(self):
@@ -134,19 +144,51 @@ def ipath(spec, i):
 
 
 def all_defs(spec):
-    """id -> dict(alias, path, recv, name, pkg)"""
+    """id -> dict(path, recv, name, pkg): the DEFINITIONS (a package imported several times defines its functions once)"""
     res = {}
     for t in spec["locals"]:
-        res[t["id"]] = {"alias": "", "path": "", "recv": t["recv"], "name": t["name"], "pkg": "<current>"}
+        res[t["id"]] = {"path": "", "recv": t["recv"], "name": t["name"], "pkg": "<current>"}
     for i in spec["imports"]:
         for t in i["tgts"]:
-            res[t["id"]] = {"alias": i["alias"], "path": ipath(spec, i), "recv": t["recv"], "name": t["name"], "pkg": ipath(spec, i)}
+            res[t["id"]] = {"path": ipath(spec, i), "recv": t["recv"], "name": t["name"], "pkg": ipath(spec, i)}
     return res
 
 
-def runnable(d):
+def import_specs(spec):
+    """the imports of the package as documented: an aliased import is the pair (package, alias) - written twice it
+    is still one import; bare-tag imports are listed as written"""
+    seen, out = set(), []
+    for i in spec["imports"]:
+        if i["alias"]:
+            if (i["pkg"], i["alias"]) in seen:
+                continue
+            seen.add((i["pkg"], i["alias"]))
+        out.append(i)
+    return out
+
+
+def exposures(spec):
+    """[(definition id, import alias under which it is exposed)]: every way a definition can be named by a target name"""
+    res = [(t["id"], "") for t in spec["locals"]]
+    for i in import_specs(spec):
+        res += [(t["id"], i["alias"]) for t in i["tgts"]]
+    return res
+
+
+def alias_of_ref(spec, ref):
+    """which of a package's imports an Aliases value like tools.Build denotes: parse.getFunction takes the first
+    import with that package name, aliased imports (sorted by path, alias) before bare ones (input of the model)"""
+    for i in spec["imports"]:
+        if any(t["id"] == ref for t in i["tgts"]):
+            same = [j for j in spec["imports"] if j["pkg"] == i["pkg"]]
+            named = sorted(j["alias"] for j in same if j["alias"])
+            return named[0] if named else ""
+    return ""
+
+
+def runnable(d, alias=""):
     """the name typed on the command line: the non-empty ones of import alias, namespace, function joined by ':'"""
-    return ":".join(x for x in (d["alias"], d["recv"], d["name"]) if x)
+    return ":".join(x for x in (alias, d["recv"], d["name"]) if x)
 
 
 def ident(d):
@@ -286,12 +328,90 @@ def k_import_alias_colon(P, c):
     P.itgt(P.imp(a), ns if c else near(P.rng, ns), rcase(P.rng, w))
 
 
+def _pkg_with_funcs(P, alias, tag=None, file=None):
+    i = P.imp(alias, tag, file=file)
+    w = P.word()
+    P.itgt(i, "", rcase(P.rng, w))
+    if P.rng.random() < 0.5:
+        P.itgt(i, P.nsword(), rcase(P.rng, P.word()))
+    if P.rng.random() < 0.5:
+        P.itgt(i, "", rcase(P.rng, P.word()))
+    return i, w
+
+
+def _decorate(P, i):
+    """local targets and Aliases entries declared on a repeatedly imported package"""
+    if P.rng.random() < 0.7:
+        P.local("", rcase(P.rng, P.word()))
+    if P.rng.random() < 0.6:
+        P.alias(rcase(P.rng, P.rng.choice(["pk", "tb", "z:y"]), False), P.rng.choice(i["tgts"])["id"])
+    if P.rng.random() < 0.3:
+        P.alias(rcase(P.rng, "loc", False), P.local("", rcase(P.rng, P.word())))
+
+
+def k_pkg_two_aliases(P, c):
+    """one package under two aliases (one block or two files): alias1:name and alias2:name, no collision;
+    collision next to it: an Aliases key spelled like alias2:name"""
+    (a, ta), (b, _) = P.ialias(), P.ialias()
+    f1 = P.rng.choice([0, 1])
+    i, w = _pkg_with_funcs(P, a, ta, file=f1)
+    P.imp(b, again=i, file=P.rng.choice([0, 1]))
+    _decorate(P, i)
+    if c:
+        P.alias(rcase(P.rng, b + ":" + w, False), P.local("", rcase(P.rng, P.word())))
+
+
+def k_pkg_root_and_alias(P, c):
+    """a package as bare-tag import and under an alias: name and alias:name; collision: a local target spelled like name"""
+    a, ta = P.ialias()
+    i, w = _pkg_with_funcs(P, "" if P.rng.random() < 0.5 else a, file=P.rng.choice([0, 1]))
+    P.imp(a if i["alias"] == "" else "", again=i, file=P.rng.choice([0, 1]))
+    _decorate(P, i)
+    P.local("", rcase(P.rng, w) if c else near(P.rng, w))
+
+
+def k_pkg_three_aliases(P, c):
+    """three aliases for one package; collision: another package under one of them sharing a function name"""
+    als = [P.ialias()[0] for _ in range(3)]
+    i, w = _pkg_with_funcs(P, als[0], file=P.rng.choice([0, 1]))
+    for a in als[1:]:
+        P.imp(a, again=i, file=P.rng.choice([0, 1]))
+    _decorate(P, i)
+    j = P.imp(P.rng.choice(als) if c else P.ial())
+    P.itgt(j, "", rcase(P.rng, w))
+
+
+def k_pkg_same_pair_twice(P, c):
+    """the same (package, alias) pair written twice is one import; collision: a different package under that alias
+    sharing a function name"""
+    a, ta = P.ialias()
+    i, w = _pkg_with_funcs(P, a, ta, file=P.rng.choice([0, 1]))
+    P.imp(a, again=i, file=P.rng.choice([0, 1]))
+    if P.rng.random() < 0.4:
+        P.imp(P.ial(), again=i)
+    _decorate(P, i)
+    if c:
+        P.itgt(P.imp(a), "", rcase(P.rng, w))
+
+
+def k_pkg_root_twice(P, c):
+    """the same package as a bare-tag import twice: one definition reachable by one name, written twice - the
+    property sentence does not decide (the oracle accepts both outcomes), the model must predict what happens"""
+    i, w = _pkg_with_funcs(P, "", file=0)
+    P.imp("", again=i, file=P.rng.choice([0, 1]))
+    if P.rng.random() < 0.5:
+        P.imp(P.ial(), again=i)
+    P.local("", rcase(P.rng, P.word()))
+
+
 KINDS = [("fn_case", k_fn_case), ("method_case", k_method_case), ("namespace_case", k_namespace_case),
          ("fn_vs_method", k_fn_vs_method), ("two_imports_one_alias", k_two_imports_one_alias),
          ("same_name_two_aliases", k_same_name_two_aliases), ("root_vs_local", k_root_vs_local), ("two_roots", k_two_roots),
          ("alias_vs_local", k_alias_vs_local), ("alias_vs_imported", k_alias_vs_imported), ("alias_vs_alias", k_alias_vs_alias),
          ("alias_own_target", k_alias_own_target), ("import_internal_case", k_import_internal_case),
-         ("alias_vs_method", k_alias_vs_method), ("import_alias_colon", k_import_alias_colon)]
+         ("alias_vs_method", k_alias_vs_method), ("import_alias_colon", k_import_alias_colon),
+         ("pkg_two_aliases", k_pkg_two_aliases), ("pkg_root_and_alias", k_pkg_root_and_alias),
+         ("pkg_three_aliases", k_pkg_three_aliases), ("pkg_same_pair_twice", k_pkg_same_pair_twice)]
 
 
 def fillers(P):
@@ -321,6 +441,9 @@ def soup(P):
     for _ in range(rng.choice([1, 2, 3, 4])):
         P.local(rng.choice(recvs), rng.choice(names))
     for _ in range(rng.choice([0, 1, 2, 2])):
+        if P.spec["imports"] and rng.random() < 0.3:
+            P.imp(rng.choice(["", "ns", "lib", "dev"]), again=rng.choice(P.spec["imports"]))
+            continue
         i = P.imp(rng.choice(["", "ns", "lib", "lib"]))
         for _ in range(rng.choice([1, 2, 3])):
             P.itgt(i, rng.choice(["", "", "Ns"]), rng.choice(names))
@@ -332,8 +455,9 @@ def choose_words(P):
     rng = P.rng
     spec = P.spec
     ws = []
-    for d in all_defs(spec).values():
-        ws.append(rcase(rng, runnable(d), False))
+    defs = all_defs(spec)
+    for i, a in exposures(spec):
+        ws.append(rcase(rng, runnable(defs[i], a), False))
     for a in spec["aliases"]:
         ws.append(rcase(rng, a["key"], False))
         if rng.random() < 0.3:
@@ -358,6 +482,7 @@ def generate(rng, reps, soups):
                     fillers(P)
                 if rng.random() < 0.3:
                     rng.shuffle(P.spec["locals"])
+                P.finish()
                 choose_words(P)
                 specs.append(P.spec)
         # two collisions of different kinds in one package (which one is reported first is not compared)
@@ -367,11 +492,18 @@ def generate(rng, reps, soups):
             P = Proj(rng, name(), "multi:%s+%s" % (k1, k2), True)
             f1(P, True)
             f2(P, c2)
+            P.finish()
             choose_words(P)
             specs.append(P.spec)
+        P = Proj(rng, name(), "pkg_root_twice", None)
+        k_pkg_root_twice(P, None)
+        P.finish()
+        choose_words(P)
+        specs.append(P.spec)
     for _ in range(soups):
         P = Proj(rng, name(), "soup", None)
         soup(P)
+        P.finish()
         choose_words(P)
         specs.append(P.spec)
     return specs
@@ -415,22 +547,40 @@ def render(spec):
         if pkg:
             used.add(pkg)
         entries.append("\t%s: %s,\n" % (_goq(a["key"]), ref))
-    imps = []
-    if spec["locals"]:
-        imps.append('\t"%s/probe"\n' % mod)
-    if any(t["recv"] for t in spec["locals"]):
-        imps.append('\t"github.com/magefile/mage/mg"\n')
+    for fno, fname in ((0, "magefile.go"), (1, "magefile2.go")):
+        specs = [i for i in spec["imports"] if i.get("file", 0) == fno]
+        if fno == 1 and not specs:
+            continue
+        imps = []
+        if fno == 0:
+            if spec["locals"]:
+                imps.append('\t"%s/probe"\n' % mod)
+            if any(t["recv"] for t in spec["locals"]):
+                imps.append('\t"github.com/magefile/mage/mg"\n')
+            # a package named by an Aliases value needs one non-blank import in this file
+            for pkg in sorted(used):
+                if not any(i["pkg"] == pkg for i in specs):
+                    imps.append('\t"%s/imp/%s"\n' % (mod, pkg))
+        named_here = set()
+        for i in specs:
+            imps.append("\t// mage:import%s\n" % ((" " + i["tag"]) if i["alias"] else ""))
+            blank = not (fno == 0 and i["pkg"] in used and i["pkg"] not in named_here)
+            if not blank:
+                named_here.add(i["pkg"])
+            imps.append('\t%s"%s"\n' % ("_ " if blank else "", ipath(spec, i)))
+        src = "//go:build mage\n\npackage main\n\n"
+        if imps:
+            src += "import (\n" + "".join(imps) + ")\n\n"
+        if fno == 0:
+            if entries:
+                src += "var Aliases = map[string]interface{}{\n" + "".join(entries) + "}\n\n"
+            src += _decls(spec["locals"])
+        files[fname] = src
+    done = set()
     for i in spec["imports"]:
-        imps.append("\t// mage:import%s\n" % ((" " + i["tag"]) if i["alias"] else ""))
-        imps.append('\t%s"%s"\n' % ("" if i["pkg"] in used else "_ ", ipath(spec, i)))
-    src = "//go:build mage\n\npackage main\n\n"
-    if imps:
-        src += "import (\n" + "".join(imps) + ")\n\n"
-    if entries:
-        src += "var Aliases = map[string]interface{}{\n" + "".join(entries) + "}\n\n"
-    src += _decls(spec["locals"])
-    files["magefile.go"] = src
-    for i in spec["imports"]:
+        if i["pkg"] in done:
+            continue
+        done.add(i["pkg"])
         s = "package %s\n\n" % i["pkg"]
         im = []
         if i["tgts"]:
